@@ -84,3 +84,111 @@ func (u *Bool) pt(k string) {
 }
 func (u *Bool) Load() bool   { u.pt("atomic.Load"); return u.real.Load() }
 func (u *Bool) Store(v bool) { u.pt("atomic.Store"); u.real.Store(v) }
+
+// ---- the rest of sync/atomic, so that any tree that compiles against sync/atomic compiles against this shim.
+// Every operation is a scheduling point and a synchronisation (acquire+release on the variable).
+
+func pt(hb *vrt.Sync, k string) {
+	if s := vrt.Cur(); s != nil {
+		s.Point(k)
+		s.Acquire(hb)
+		s.Release(hb)
+	}
+}
+
+type Uint32 struct {
+	real atomic.Uint32
+	hb   vrt.Sync
+}
+
+func (u *Uint32) Load() uint32         { pt(&u.hb, "atomic.Load"); return u.real.Load() }
+func (u *Uint32) Store(v uint32)       { pt(&u.hb, "atomic.Store"); u.real.Store(v) }
+func (u *Uint32) Add(d uint32) uint32  { pt(&u.hb, "atomic.Add"); return u.real.Add(d) }
+func (u *Uint32) Swap(v uint32) uint32 { pt(&u.hb, "atomic.Swap"); return u.real.Swap(v) }
+func (u *Uint32) CompareAndSwap(o, n uint32) bool {
+	pt(&u.hb, "atomic.CAS")
+	return u.real.CompareAndSwap(o, n)
+}
+
+type Uintptr struct {
+	real atomic.Uintptr
+	hb   vrt.Sync
+}
+
+func (u *Uintptr) Load() uintptr          { pt(&u.hb, "atomic.Load"); return u.real.Load() }
+func (u *Uintptr) Store(v uintptr)        { pt(&u.hb, "atomic.Store"); u.real.Store(v) }
+func (u *Uintptr) Add(d uintptr) uintptr  { pt(&u.hb, "atomic.Add"); return u.real.Add(d) }
+func (u *Uintptr) Swap(v uintptr) uintptr { pt(&u.hb, "atomic.Swap"); return u.real.Swap(v) }
+func (u *Uintptr) CompareAndSwap(o, n uintptr) bool {
+	pt(&u.hb, "atomic.CAS")
+	return u.real.CompareAndSwap(o, n)
+}
+
+func (u *Int64) Swap(v int64) int64 { u.pt("atomic.Swap"); return u.real.Swap(v) }
+func (u *Int32) Swap(v int32) int32 { u.pt("atomic.Swap"); return u.real.Swap(v) }
+func (u *Int32) CompareAndSwap(o, n int32) bool {
+	u.pt("atomic.CAS")
+	return u.real.CompareAndSwap(o, n)
+}
+func (u *Bool) Swap(v bool) bool { u.pt("atomic.Swap"); return u.real.Swap(v) }
+func (u *Bool) CompareAndSwap(o, n bool) bool {
+	u.pt("atomic.CAS")
+	return u.real.CompareAndSwap(o, n)
+}
+
+// Pointer shadows atomic.Pointer[T].
+type Pointer[T any] struct {
+	real atomic.Pointer[T]
+	hb   vrt.Sync
+}
+
+func (p *Pointer[T]) Load() *T     { pt(&p.hb, "atomic.Load"); return p.real.Load() }
+func (p *Pointer[T]) Store(v *T)   { pt(&p.hb, "atomic.Store"); p.real.Store(v) }
+func (p *Pointer[T]) Swap(v *T) *T { pt(&p.hb, "atomic.Swap"); return p.real.Swap(v) }
+func (p *Pointer[T]) CompareAndSwap(o, n *T) bool {
+	pt(&p.hb, "atomic.CAS")
+	return p.real.CompareAndSwap(o, n)
+}
+
+// function forms: scheduling points without a per-variable clock (the address is not ours to extend); they
+// synchronise through one global clock, which can only hide races, never invent them
+var fnHB vrt.Sync
+
+func AddInt32(a *int32, d int32) int32     { pt(&fnHB, "atomic.Add"); return atomic.AddInt32(a, d) }
+func AddInt64(a *int64, d int64) int64     { pt(&fnHB, "atomic.Add"); return atomic.AddInt64(a, d) }
+func AddUint32(a *uint32, d uint32) uint32 { pt(&fnHB, "atomic.Add"); return atomic.AddUint32(a, d) }
+func AddUint64(a *uint64, d uint64) uint64 { pt(&fnHB, "atomic.Add"); return atomic.AddUint64(a, d) }
+func AddUintptr(a *uintptr, d uintptr) uintptr {
+	pt(&fnHB, "atomic.Add")
+	return atomic.AddUintptr(a, d)
+}
+func LoadInt32(a *int32) int32              { pt(&fnHB, "atomic.Load"); return atomic.LoadInt32(a) }
+func LoadInt64(a *int64) int64              { pt(&fnHB, "atomic.Load"); return atomic.LoadInt64(a) }
+func LoadUint32(a *uint32) uint32           { pt(&fnHB, "atomic.Load"); return atomic.LoadUint32(a) }
+func LoadUint64(a *uint64) uint64           { pt(&fnHB, "atomic.Load"); return atomic.LoadUint64(a) }
+func LoadUintptr(a *uintptr) uintptr        { pt(&fnHB, "atomic.Load"); return atomic.LoadUintptr(a) }
+func StoreInt32(a *int32, v int32)          { pt(&fnHB, "atomic.Store"); atomic.StoreInt32(a, v) }
+func StoreInt64(a *int64, v int64)          { pt(&fnHB, "atomic.Store"); atomic.StoreInt64(a, v) }
+func StoreUint32(a *uint32, v uint32)       { pt(&fnHB, "atomic.Store"); atomic.StoreUint32(a, v) }
+func StoreUint64(a *uint64, v uint64)       { pt(&fnHB, "atomic.Store"); atomic.StoreUint64(a, v) }
+func StoreUintptr(a *uintptr, v uintptr)    { pt(&fnHB, "atomic.Store"); atomic.StoreUintptr(a, v) }
+func SwapInt32(a *int32, v int32) int32     { pt(&fnHB, "atomic.Swap"); return atomic.SwapInt32(a, v) }
+func SwapInt64(a *int64, v int64) int64     { pt(&fnHB, "atomic.Swap"); return atomic.SwapInt64(a, v) }
+func SwapUint32(a *uint32, v uint32) uint32 { pt(&fnHB, "atomic.Swap"); return atomic.SwapUint32(a, v) }
+func SwapUint64(a *uint64, v uint64) uint64 { pt(&fnHB, "atomic.Swap"); return atomic.SwapUint64(a, v) }
+func CompareAndSwapInt32(a *int32, o, n int32) bool {
+	pt(&fnHB, "atomic.CAS")
+	return atomic.CompareAndSwapInt32(a, o, n)
+}
+func CompareAndSwapInt64(a *int64, o, n int64) bool {
+	pt(&fnHB, "atomic.CAS")
+	return atomic.CompareAndSwapInt64(a, o, n)
+}
+func CompareAndSwapUint32(a *uint32, o, n uint32) bool {
+	pt(&fnHB, "atomic.CAS")
+	return atomic.CompareAndSwapUint32(a, o, n)
+}
+func CompareAndSwapUint64(a *uint64, o, n uint64) bool {
+	pt(&fnHB, "atomic.CAS")
+	return atomic.CompareAndSwapUint64(a, o, n)
+}
